@@ -3,7 +3,7 @@
    (Bcast.v, the only place where panrpc closes or sends on shared channels), a panic outside a
    recovered path, a result-arity mismatch of a stub (Link.v: the recover path always yields the
    declared number of results — [CReturned] carries a value and an error for both arities). *)
-From Verif Require Import Base Bcast BcastProofs Link LinkProofs LinkInv16 LinkInvB Regions RegionsProofs.
+From Verif Require Import Base Bcast BcastProofs Link LinkProofs LinkInv16 LinkInvB Regions RegionsProofs Stream StreamG StreamGProofs.
 
 (* The pending-call table (Broadcaster) never crashes, for all client programs and schedules —
    in particular for the registry's use of it: waiter Receive/receive/Free, publisher Publish,
@@ -118,3 +118,12 @@ Example outer_lock_on_failure_path_rejected : regions_ok [mkRegion MOuter SOther
 Proof. reflexivity. Qed.
 Example send_under_lock_rejected : regions_ok [mkRegion (MLeaf 0) SOther false [] [BOther] 0] = false.
 Proof. reflexivity. Qed.
+
+(* ---- the stream API closes decodeDone exactly once (a second close would panic in a goroutine nobody recovers):
+   in every reachable state of StreamG.v in which it is closed the decode goroutine has exited, and no step closes
+   it again or changes the error the readers get ---- *)
+Theorem stream_done_closed_once :
+  forall v input s a s', greachable v input s -> gstep v s a = Some s' -> gdone s <> None ->
+    gdone s' = gdone s /\ dec s' = DExit.
+Proof. exact done_closed_once_lemma. Qed.
+Print Assumptions stream_done_closed_once.
